@@ -179,7 +179,9 @@ PROPS = {
     'C04': {
         'id': 'C04', 'area': ['lm', 'lw'],
         'theorems': ['Props.C04_reader_invariant', 'Props.C04_fill_hands_out_source', 'Props.C04_read_in_order',
-                     'Props.C04_seek_within_buffer', 'Props.C04_parse_window', 'Props.C04_min_buffer_suffices', 'Props.C04_consts'],
+                     'Props.C04_seek_within_buffer', 'Props.C04_parse_window', 'Props.C04_min_buffer_suffices', 'Props.C04_ready_invariant', 'Props.C04_low_mark_kept',
+                     'Props.C04_read_not_early', 'Props.C04_chunking_independent', 'Props.C04_chunking_independent_from',
+                     'Props.C04_position_independent', 'Props.C04_consts'],
         'n_quick': [1500, 60], 'n_thorough': [40000, 1500],
     },
     'C17': {
